@@ -402,3 +402,33 @@ Proof.
   rewrite <- Hlen. clear Hlen. induction g as [|[p m] g IH]; simpl; [reflexivity|].
   now rewrite !app_length, repeat_length, IH.
 Qed.
+
+(* ---------- PLSET: the value read back from the owning partition equals the single-store value ---------- *)
+Lemma apply_sets_rev l s : apply_sets l s = rev l ++ s.
+Proof.
+  unfold apply_sets. revert s; induction l as [|[k v] l IH]; intros s; simpl; [reflexivity|].
+  rewrite IH. now rewrite <- app_assoc.
+Qed.
+
+Lemma kv_get_filter (g : bytes -> bool) k (l s : kvs) :
+  g k = true ->
+  kv_get k (filter (fun e => g (fst e)) l ++ s) = kv_get k (l ++ s).
+Proof.
+  intros Hg. induction l as [|[k' v] l IH]; simpl; [reflexivity|].
+  destruct (g k') eqn:E; simpl.
+  - now rewrite IH.
+  - destruct (bytes_eqb k k') eqn:Ek; [|exact IH].
+    apply bytes_eqb_eq in Ek. subst. congruence.
+Qed.
+
+Theorem plset_get_eq pnum l k : plset_get pnum l k = kv_get k (apply_sets l []).
+Proof.
+  unfold plset_get, group_kvs. rewrite group_by_filter, !apply_sets_rev, !app_nil_r.
+  set (p := part_of (route_key k) pnum).
+  rewrite <- (app_nil_r (rev (filter _ l))), <- (app_nil_r (rev l)).
+  assert (H : rev (filter (fun a : bytes * bytes => part_of (route_key (fst a)) pnum =? p) l) =
+              filter (fun e => (fun x => part_of (route_key x) pnum =? p) (fst e)) (rev l)).
+  { clear. induction l as [|a l IH]; simpl; [reflexivity|].
+    rewrite filter_app. simpl. destruct (part_of (route_key (fst a)) pnum =? p); simpl; now rewrite IH, ?app_nil_r. }
+  rewrite H. apply (kv_get_filter (fun x => part_of (route_key x) pnum =? p)). apply N.eqb_refl.
+Qed.
